@@ -248,6 +248,7 @@ func (st *State) bytesFromStr(s StrV) SliceV {
 }
 
 func (st *State) strFromBytes(s SliceV) StrV {
+	s = st.simpSlice(s)
 	if s.Obj == 0 {
 		return conStr("")
 	}
@@ -374,6 +375,8 @@ func (ex *Exec) indexAddr(st *State, x Value, idx *Term, it types.Type, xt types
 		}
 		return Ptr{Obj: v.Obj, Path: v.Path, Sym: idx}
 	case SliceV:
+		v = st.simpSlice(v)
+		idx = st.simp(idx)
 		st.need(c.Ult(idx, v.Len), "index out of range")
 		pos := c.Add(v.Off, idx)
 		if pos.IsConst() {
@@ -418,7 +421,10 @@ func (ex *Exec) sliceOp(st *State, fr *Frame, in *ssa.Slice) Value {
 		}
 		return ex.toInt64(st.get(fr, v).(*Term), v.Type())
 	}
-	lo, hi, max := opt(in.Low), opt(in.High), opt(in.Max)
+	lo, hi, max := st.simp(opt(in.Low)), st.simp(opt(in.High)), st.simp(opt(in.Max))
+	if sv, ok := x.(SliceV); ok {
+		x = st.simpSlice(sv)
+	}
 	if lo == nil {
 		lo = ex.i64(0)
 	}
